@@ -34,7 +34,21 @@ func fhdrDec(s *cases.Set, h lorawan.FHDR, up bool, t string, b []byte) {
 		}
 	}()
 	var fresh lorawan.FHDR
-	e1 := fresh.UnmarshalBinary(up, append([]byte{}, b...))
+	in := append([]byte{}, b...)
+	e1 := fresh.UnmarshalBinary(up, in)
+	if e1 == nil { // encoding.BinaryUnmarshaler: the decoder copies what it keeps and leaves its input alone
+		if !bytes.Equal(in, b) {
+			decFail(s, "FHDR.UnmarshalBinary", t, b, fmt.Sprintf("changed its input buffer to %x", in))
+			copy(in, b)
+		}
+		before := framefmt.FHDR(fresh, int(b[4]&0x0f))
+		for i := range in {
+			in[i] ^= 0xff
+		}
+		if after := framefmt.FHDR(fresh, int(b[4]&0x0f)); after != before {
+			decFail(s, "FHDR.UnmarshalBinary", t, b, "the decoded header changes when the caller overwrites the buffer: "+after)
+		}
+	}
 	e2 := usedFHDR.UnmarshalBinary(up, append([]byte{}, b...))
 	if e1 != nil || e2 != nil {
 		decFail(s, "FHDR.UnmarshalBinary", t, b, "rejects the bytes the encoder produced")
@@ -72,7 +86,21 @@ func payloadDec(s *cases.Set, p lorawan.Payload, t string, b []byte) {
 	default:
 		return
 	}
-	e1 := fresh.UnmarshalBinary(false, append([]byte{}, b...))
+	in := append([]byte{}, b...)
+	e1 := fresh.UnmarshalBinary(false, in)
+	if e1 == nil {
+		if !bytes.Equal(in, b) {
+			decFail(s, "payload decoder", t, b, fmt.Sprintf("changed its input buffer to %x", in))
+			copy(in, b)
+		}
+		before := framefmt.Payload(fresh, 0)
+		for i := range in {
+			in[i] ^= 0xff
+		}
+		if after := framefmt.Payload(fresh, 0); after != before {
+			decFail(s, "payload decoder", t, b, "the decoded payload changes when the caller overwrites the buffer: "+after)
+		}
+	}
 	e2 := used.UnmarshalBinary(false, append([]byte{}, b...))
 	if e1 != nil || e2 != nil {
 		decFail(s, "payload decoder", t, b, "rejects the bytes the encoder produced")
